@@ -85,6 +85,9 @@ pub enum Op {
     Pop,
     /// with_inner_state: insert type into the child, set_value of type 0 through the child, fail?
     WithInner(u8, bool),
+    /// write attempts (set_value, try_borrow_value_mut) while a shared guard on the innermost instance is
+    /// alive: must be refused and must not fall through to a shadowed outer instance
+    GuardedWrite(u8),
 }
 
 pub type Model = Vec<BTreeMap<u8, u32>>; // root .. innermost
@@ -150,6 +153,7 @@ impl<'a> Run<'a> {
             }
             Op::Pop => self.op_pop(),
             Op::WithInner(t, fail) => dispatch_ty!(t, op_with_inner, self, t, fail),
+            Op::GuardedWrite(t) => dispatch_ty!(t, op_guarded_write, self, t),
         }
     }
 
@@ -480,6 +484,29 @@ fn op_parent_insert<'a, T: St<'a>>(run: &mut Run<'a>, t: u8) -> Result<bool, Vio
     }
 }
 
+fn op_guarded_write<'a, T: St<'a>>(run: &mut Run<'a>, t: u8) -> Result<bool, Viol> {
+    let v = run.fresh();
+    let present = innermost(&run.model, t).is_some();
+    let st = run.state.as_ref().unwrap();
+    let guard = st.try_borrow::<T>();
+    if guard.is_ok() != present {
+        return Err(("try_borrow:wrong-presence".into(), format!("try_borrow::<{t}>() ok = {}, model present = {present}", guard.is_ok())));
+    }
+    let r1 = st.set_value::<T>(v);
+    let r2 = st.try_borrow_value_mut::<T>().map(|mut g| std::mem::replace(&mut *g, v)).map_err(|e| err_class(&e));
+    let r3 = st.try_borrow_mut::<T>().map(|_| ()).map_err(|e| err_class(&e));
+    drop(guard);
+    let want = if present { "BorrowConflictMut" } else { "NotFound" };
+    if r1.is_some() || r2 != Err(want) || r3 != Err(want) {
+        return Err((
+            "write-while-shared-guard-alive:not-refused".into(),
+            format!("type {t} (present = {present}): set_value = {r1:?}, try_borrow_value_mut = {r2:?}, try_borrow_mut = {r3:?}; expected None / Err({want})"),
+        ));
+    }
+    // the model is unchanged: the sweep that follows checks that no (shadowed) instance was written
+    Ok(present)
+}
+
 fn op_with_inner<'a, T: St<'a>>(run: &mut Run<'a>, t: u8, fail: bool) -> Result<bool, Viol> {
     let v = run.fresh();
     let w = run.fresh();
@@ -549,6 +576,7 @@ pub fn alphabet(ntypes: u8) -> Vec<Op> {
             Op::ParentInsert(t),
             Op::WithInner(t, false),
             Op::WithInner(t, true),
+            Op::GuardedWrite(t),
         ]);
     }
     v
@@ -622,5 +650,6 @@ pub fn op_name(op: Op) -> &'static str {
         Op::Push => "into_child",
         Op::Pop => "into_parent",
         Op::WithInner(..) => "with_inner_state",
+        Op::GuardedWrite(_) => "guarded-write",
     }
 }
